@@ -426,6 +426,23 @@ def eq_term(eng, a, b):
     if ka == 'any' or kb == 'any':
         if (kb if ka == 'any' else ka) in ('rec', 'tup', 'fn', 'mod', 'pylist', 'dict'):
             return z3.BoolVal(False)
+        # Python compares numbers across int / bool / float (1 == True == 1.0)
+        if (kb if ka == 'any' else ka) in ('int', 'bool', 'real', 'any'):
+            def isnum(v):
+                if v.ty.kind == 'any':
+                    return z3.Or(PV.is_pi(v.t), PV.is_pb(v.t), PV.is_pr(v.t))
+                return z3.BoolVal(True)
+
+            def numval(v):
+                if v.ty.kind == 'any':
+                    return z3.If(PV.is_pi(v.t), z3.ToReal(PV.iv(v.t)),
+                                 z3.If(PV.is_pb(v.t), z3.If(PV.bv(v.t), z3.RealVal(1),
+                                                            z3.RealVal(0)), PV.rv(v.t)))
+                return eng.coerce(v, REAL).t
+            if ka == 'any' and kb == 'any':
+                return z3.If(z3.And(isnum(a), isnum(b)), numval(a) == numval(b), a.t == b.t)
+            o, n = (a, b) if ka == 'any' else (b, a)
+            return z3.And(isnum(o), numval(o) == numval(n))
         if ka == 'list' and a.ty.args[0].kind == 'bot':
             a = V(List(STR), z3.Empty(SeqS))
         if kb == 'list' and b.ty.args[0].kind == 'bot':
@@ -987,6 +1004,7 @@ def listcomp_loop(eng, st, e, xs, spec, ordn):
     comp0 = V(List(rty), z3.Empty(z3.SeqSort(sort_of(rty))))
     s0 = st.copy()
     env0 = dict(s0.env)
+    env0['xs'] = xs
     env0['comp'] = comp0
     env0[spec.index or '_i'] = vint(0)
     for cl in spec.invariants:
@@ -1002,6 +1020,7 @@ def listcomp_loop(eng, st, e, xs, spec, ordn):
     head.loopw = set()
     comp = V(List(rty), z3.Const(eng.name('comp'), z3.SeqSort(sort_of(rty))))
     env['comp'] = comp
+    env['xs'] = xs
     env[spec.index or '_i'] = vint(i)
     head.env = env
     head.pc.append(i >= 0)
@@ -1180,6 +1199,8 @@ def type_names(eng, tv):
         return out
     if tv.ty.kind == 'fn' and tv.t[0] == 'lib' and tv.t[1] in BUILTIN_TYPES:
         return [tv.t[1]]
+    if tv.ty.kind == 'fn' and tv.t[0] in ('excclass', 'class'):
+        return ['exc:' + tv.t[-1]]
     raise core.EngineError('isinstance with unsupported type %r' % (tv,))
 
 
@@ -1187,7 +1208,13 @@ def type_names(eng, tv):
 def _isinstance(eng, st, args, kwargs, line):
     v, tv = args
     names = type_names(eng, tv)
-    yield st, vbool(z3.simplify(z3.Or(*[isinstance_term(eng, v, n) for n in names])))
+    terms = []
+    for n in names:
+        if n.startswith('exc:'):
+            terms.append(z3.BoolVal(v.ty.kind == 'exc' and core.exc_is_sub(v.t.cls, n[4:])))
+        else:
+            terms.append(isinstance_term(eng, v, n))
+    yield st, vbool(z3.simplify(z3.Or(*terms)))
 
 
 @lib('len')
@@ -1784,3 +1811,125 @@ def _to_bytes(eng, st, recv, args, kwargs, line):
 def _exists(eng, st, args, kwargs, line):
     b = z3.Function('fs_exists', S, B)(args[0].t)
     yield st, vbool(b)
+
+
+# ---------------------------------------------------------------------------------------------
+# further str methods (assumed contracts; mostly uninterpreted with the axioms that matter)
+
+py_count = z3.Function('py_count', S, S, I)
+py_isdigit = z3.Function('py_isdigit', S, B)
+py_upper = z3.Function('py_upper', S, S)
+py_lstrip = z3.Function('py_lstrip', S, S)
+py_rstrip = z3.Function('py_rstrip', S, S)
+
+
+@libm('str', 'count')
+def _count(eng, st, recv, args, kwargs, line):
+    sub = args[0]
+    if sub.ty.kind != 'str':
+        yield st, R('TypeError', line)
+        return
+    r = py_count(recv.t, sub.t)
+    eng.fact(st, r >= 0)
+    eng.fact(st, (r == 0) == z3.Not(z3.Contains(recv.t, sub.t)))
+    eng.fact(st, z3.Implies(z3.Length(sub.t) > 0,
+                            z3.Length(py_split(recv.t, sub.t)) == r + 1))
+    yield st, vint(r)
+
+
+@libm('str', 'isdigit')
+def _isdigit2(eng, st, recv, args, kwargs, line):
+    r = py_isdigit(recv.t)
+    eng.fact(st, z3.Implies(z3.Length(recv.t) == 0, z3.Not(r)))
+    eng.fact(st, z3.Implies(is_ascii_digit(recv.t), r))
+    eng.fact(st, z3.Implies(r, z3.Not(z3.PrefixOf(z3.StringVal('-'), recv.t))))
+    n = z3.StrToInt(recv.t)
+    eng.fact(st, z3.Implies(z3.And(n >= 0, recv.t == z3.IntToStr(n)), r))
+    yield st, vbool(r)
+
+
+LIBM[('str', 'isdecimal')] = _isdigit2
+LIBM[('str', 'isnumeric')] = _isdigit2
+
+
+@libm('str', 'find')
+def _find(eng, st, recv, args, kwargs, line):
+    yield st, vint(z3.IndexOf(recv.t, args[0].t, 0))
+
+
+@libm('str', 'index')
+def _sindex(eng, st, recv, args, kwargs, line):
+    i = z3.IndexOf(recv.t, args[0].t, 0)
+    for s1, ok in eng.fork(st, i >= 0):
+        if ok:
+            yield s1, vint(i)
+        else:
+            yield s1, R('ValueError', line)
+
+
+@libm('str', 'upper')
+def _upper(eng, st, recv, args, kwargs, line):
+    yield st, vstr(py_upper(recv.t))
+
+
+@libm('str', 'lstrip')
+def _lstrip(eng, st, recv, args, kwargs, line):
+    r = py_lstrip(recv.t) if not args else z3.Function('py_lstrip_c', S, S, S)(recv.t, args[0].t)
+    eng.fact(st, z3.SuffixOf(r, recv.t))
+    yield st, vstr(r)
+
+
+@libm('str', 'rstrip')
+def _rstrip(eng, st, recv, args, kwargs, line):
+    r = py_rstrip(recv.t) if not args else z3.Function('py_rstrip_c', S, S, S)(recv.t, args[0].t)
+    eng.fact(st, z3.PrefixOf(r, recv.t))
+    yield st, vstr(r)
+
+
+@libm('str', 'join')
+def _join(eng, st, recv, args, kwargs, line):
+    xs = args[0]
+    if xs.ty.kind == 'list' and xs.ty.args[0].kind == 'str':
+        yield st, vstr(join_sep(recv.t, xs.t))
+    elif xs.ty.kind == 'list' and xs.ty.args[0].kind == 'bot':
+        yield st, vstr('')
+    else:
+        raise core.EngineError('str.join of %r at line %d' % (xs.ty, line))
+
+
+@libm('str', 'partition')
+def _partition(eng, st, recv, args, kwargs, line):
+    sep = args[0].t
+    i = z3.IndexOf(recv.t, sep, 0)
+    a = z3.If(i >= 0, z3.SubString(recv.t, 0, i), recv.t)
+    m = z3.If(i >= 0, sep, z3.StringVal(''))
+    b = z3.If(i >= 0, z3.SubString(recv.t, i + z3.Length(sep), z3.Length(recv.t)), z3.StringVal(''))
+    yield st, V(TUP, (vstr(a), vstr(m), vstr(b)))
+
+
+@lib('reversed')
+def _reversed(eng, st, args, kwargs, line):
+    xs = args[0]
+    if xs.ty.kind != 'list' or xs.ty.args[0].kind == 'bot':
+        yield st, xs
+        return
+    r = z3.Function('seq_reverse_%s' % str(xs.t.sort()).replace(' ', '').replace('(', '').replace(
+        ')', ''), xs.t.sort(), xs.t.sort())(xs.t)
+    n = z3.Length(xs.t)
+    eng.fact(st, z3.Length(r) == n)
+    k = z3.Int(eng.name('k!rev'))
+    q = z3.ForAll([k], z3.Implies(z3.And(k >= 0, k < n), r[k] == xs.t[n - 1 - k]))
+    eng.quants[q.get_id()] = (q, [k], [k >= 0, k < n], r[k] == xs.t[n - 1 - k])
+    eng.fact(st, q)
+    yield st, V(xs.ty, r)
+
+
+@lib('sorted')
+def _sorted(eng, st, args, kwargs, line):
+    xs = args[0]
+    if xs.ty.kind != 'list' or xs.ty.args[0].kind == 'bot':
+        yield st, xs
+        return
+    r = z3.Const(eng.name('sorted'), xs.t.sort())
+    eng.fact(st, z3.Length(r) == z3.Length(xs.t))
+    yield st, V(xs.ty, r)
